@@ -1,4 +1,5 @@
 //! Shared proptest strategies (construction, not rejection).
+pub mod keys;
 pub mod script;
 pub mod tx;
 
